@@ -125,8 +125,12 @@ def inheritSpace (parentState : Bool) (own : Option Bool) : Bool :=
 structure Tag where
   name : QName
   preserve : Bool := false
-  /-- the element's attributes (expanded name, value), namespace declarations excluded; stripping never touches them -/
-  attrs : List (QName × String) := []
+  /-- the element's attribute nodes (document-order index, expanded name, value), namespace declarations excluded;
+  stripping never touches them -/
+  attrs : List (Nat × QName × String) := []
+  /-- the namespace declarations written on this element (document-order index, prefix, URI); the document element
+  also carries the implicit `xml` declaration.  Namespace nodes precede attribute nodes in document order. -/
+  nss : List (Nat × String × String) := []
 deriving DecidableEq, Repr, Inhabited
 
 /-- `StylesheetRoot::shouldStripSourceNode(text)`: `parent = none` for a text node whose parent is not an
